@@ -4,7 +4,7 @@ an Alg.  Used (a) to find a concrete failing input for a failed obligation
 (c) as Schwartz-Zippel style defence in depth."""
 import mpmath as mp
 
-mp.mp.dps = 60
+mp.mp.dps = 150
 
 
 def mpf(x):
@@ -132,9 +132,11 @@ def gen_values(alg, values):
         elif k == "taylor_rem":
             a = args[0]
             if alg.gen_desc[name][0] == "taylor_rem_sin":
-                vals[name] = mp.sin(a) - (a - a ** 3 / 6 + a ** 5 / 120)
+                vals[name] = ((mp.sin(a) - (a - a ** 3 / 6 + a ** 5 / 120 - a ** 7 / 5040)) / a ** 9
+                              if a != 0 else mp.mpf(1) / 362880)
             else:
-                vals[name] = mp.cos(a) - (1 - a ** 2 / 2 + a ** 4 / 24)
+                vals[name] = ((mp.cos(a) - (1 - a ** 2 / 2 + a ** 4 / 24 - a ** 6 / 720)) / a ** 8
+                              if a != 0 else mp.mpf(1) / 40320)
         elif k == "free":
             vals[name] = mpf(values[atom.info])
         else:
